@@ -44,19 +44,40 @@ impl<'a> MessageParser<'a> {
 
     /// Parse a required field
     pub fn parse_field<T: SwiftField>(&mut self, tag: &str) -> Result<T, ParseError> {
+        let checkpoint = self.checkpoint(tag);
         let field_content = self.extract_field(tag, false)?;
 
         // Try to parse the field
-        T::parse(&field_content).map_err(|e| {
-            ParseError::InvalidFieldFormat(Box::new(InvalidFieldFormatError {
-                field_tag: tag.to_string(),
-                component_name: "field".to_string(),
-                value: field_content,
-                format_spec: "field format".to_string(),
-                position: Some(self.position),
-                inner_error: e.to_string(),
-            }))
-        })
+        match T::parse(&field_content) {
+            Ok(parsed) => Ok(parsed),
+            Err(e) => {
+                // The field was not accepted: leave it unconsumed so it cannot be silently dropped
+                self.rewind(checkpoint, tag);
+                Err(ParseError::InvalidFieldFormat(Box::new(
+                    InvalidFieldFormatError {
+                        field_tag: tag.to_string(),
+                        component_name: "field".to_string(),
+                        value: field_content,
+                        format_spec: "field format".to_string(),
+                        position: Some(self.position),
+                        inner_error: e.to_string(),
+                    },
+                )))
+            }
+        }
+    }
+
+    /// Remember the cursor and whether `tag` was already recorded, so a rejected field can be un-consumed
+    fn checkpoint(&self, tag: &str) -> (usize, bool) {
+        (self.position, self.fields_seen.contains(tag))
+    }
+
+    /// Restore the state saved by `checkpoint`
+    fn rewind(&mut self, checkpoint: (usize, bool), tag: &str) {
+        self.position = checkpoint.0;
+        if !checkpoint.1 {
+            self.fields_seen.remove(tag);
+        }
     }
 
     /// Parse an optional field (only checks immediate next field, not searching ahead)
@@ -71,20 +92,24 @@ impl<'a> MessageParser<'a> {
         }
 
         // If immediate next field matches, extract and parse it
+        let checkpoint = self.checkpoint(tag);
         match self.extract_field(tag, true) {
-            Ok(content) => {
-                let parsed = T::parse(&content).map_err(|e| {
-                    ParseError::InvalidFieldFormat(Box::new(InvalidFieldFormatError {
-                        field_tag: tag.to_string(),
-                        component_name: "field".to_string(),
-                        value: content,
-                        format_spec: "field format".to_string(),
-                        position: Some(self.position),
-                        inner_error: e.to_string(),
-                    }))
-                })?;
-                Ok(Some(parsed))
-            }
+            Ok(content) => match T::parse(&content) {
+                Ok(parsed) => Ok(Some(parsed)),
+                Err(e) => {
+                    self.rewind(checkpoint, tag);
+                    Err(ParseError::InvalidFieldFormat(Box::new(
+                        InvalidFieldFormatError {
+                            field_tag: tag.to_string(),
+                            component_name: "field".to_string(),
+                            value: content,
+                            format_spec: "field format".to_string(),
+                            position: Some(self.position),
+                            inner_error: e.to_string(),
+                        },
+                    )))
+                }
+            },
             Err(_) => Ok(None), // Field not found, return None for optional
         }
     }
@@ -94,18 +119,28 @@ impl<'a> MessageParser<'a> {
         let mut results = Vec::new();
 
         // Keep parsing until no more instances found
-        while let Ok(content) = self.extract_field(tag, true) {
-            let parsed = T::parse(&content).map_err(|e| {
-                ParseError::InvalidFieldFormat(Box::new(InvalidFieldFormatError {
-                    field_tag: tag.to_string(),
-                    component_name: "field".to_string(),
-                    value: content,
-                    format_spec: "field format".to_string(),
-                    position: Some(self.position),
-                    inner_error: e.to_string(),
-                }))
-            })?;
-            results.push(parsed);
+        loop {
+            let checkpoint = self.checkpoint(tag);
+            let content = match self.extract_field(tag, true) {
+                Ok(content) => content,
+                Err(_) => break,
+            };
+            match T::parse(&content) {
+                Ok(parsed) => results.push(parsed),
+                Err(e) => {
+                    self.rewind(checkpoint, tag);
+                    return Err(ParseError::InvalidFieldFormat(Box::new(
+                        InvalidFieldFormatError {
+                            field_tag: tag.to_string(),
+                            component_name: "field".to_string(),
+                            value: content,
+                            format_spec: "field format".to_string(),
+                            position: Some(self.position),
+                            inner_error: e.to_string(),
+                        },
+                    )));
+                }
+            }
         }
 
         Ok(results)
@@ -116,19 +151,26 @@ impl<'a> MessageParser<'a> {
         // Look ahead to find which variant is present
         let variant = self.detect_variant(base_tag)?;
         let full_tag = format!("{}{}", base_tag, variant);
+        let checkpoint = self.checkpoint(&full_tag);
         let field_content = self.extract_field(&full_tag, false)?;
 
         // Use parse_with_variant for enum fields
-        T::parse_with_variant(&field_content, Some(&variant), Some(base_tag)).map_err(|e| {
-            ParseError::InvalidFieldFormat(Box::new(InvalidFieldFormatError {
-                field_tag: full_tag,
-                component_name: "field".to_string(),
-                value: field_content,
-                format_spec: "field format".to_string(),
-                position: Some(self.position),
-                inner_error: e.to_string(),
-            }))
-        })
+        match T::parse_with_variant(&field_content, Some(&variant), Some(base_tag)) {
+            Ok(parsed) => Ok(parsed),
+            Err(e) => {
+                self.rewind(checkpoint, &full_tag);
+                Err(ParseError::InvalidFieldFormat(Box::new(
+                    InvalidFieldFormatError {
+                        field_tag: full_tag,
+                        component_name: "field".to_string(),
+                        value: field_content,
+                        format_spec: "field format".to_string(),
+                        position: Some(self.position),
+                        inner_error: e.to_string(),
+                    },
+                )))
+            }
+        }
     }
 
     /// Parse an optional field with variant detection
@@ -139,19 +181,24 @@ impl<'a> MessageParser<'a> {
         match self.detect_variant_optional(base_tag) {
             Some(variant) => {
                 let full_tag = format!("{}{}", base_tag, variant);
+                let checkpoint = self.checkpoint(&full_tag);
                 if let Ok(content) = self.extract_field(&full_tag, true) {
-                    let parsed = T::parse_with_variant(&content, Some(&variant), Some(base_tag))
-                        .map_err(|e| {
-                            ParseError::InvalidFieldFormat(Box::new(InvalidFieldFormatError {
-                                field_tag: full_tag,
-                                component_name: "field".to_string(),
-                                value: content,
-                                format_spec: "field format".to_string(),
-                                position: Some(self.position),
-                                inner_error: e.to_string(),
-                            }))
-                        })?;
-                    Ok(Some(parsed))
+                    match T::parse_with_variant(&content, Some(&variant), Some(base_tag)) {
+                        Ok(parsed) => Ok(Some(parsed)),
+                        Err(e) => {
+                            self.rewind(checkpoint, &full_tag);
+                            Err(ParseError::InvalidFieldFormat(Box::new(
+                                InvalidFieldFormatError {
+                                    field_tag: full_tag,
+                                    component_name: "field".to_string(),
+                                    value: content,
+                                    format_spec: "field format".to_string(),
+                                    position: Some(self.position),
+                                    inner_error: e.to_string(),
+                                },
+                            )))
+                        }
+                    }
                 } else {
                     Ok(None)
                 }
